@@ -151,19 +151,19 @@ func EsReadAdts(b []byte) (frames []EsAdtsFrame, rest int) {
 
 // EsFrame is one reassembled PES packet of an elementary stream declared in the PMT.
 type EsFrame struct {
-	Pid     int
-	St      int // stream_type from the PMT
-	Sid     int
-	Pts     T3
-	Dts     T3
-	Flags   int // PTS_DTS_flags
-	Rai     int
-	PesLen  int  // PES_packet_length field
-	LenOk   bool // bounded PES: field equals the bytes found; unbounded (0): video only
-	CcOk    bool // continuity counter advanced by one on every packet of the PES
-	HdrOk   bool // start code, marker bits, '10' prefix
-	Data    []byte
-	Npkts   int
+	Pid    int
+	St     int // stream_type from the PMT
+	Sid    int
+	Pts    T3
+	Dts    T3
+	Flags  int // PTS_DTS_flags
+	Rai    int
+	PesLen int  // PES_packet_length field
+	LenOk  bool // bounded PES: field equals the bytes found; unbounded (0): video only
+	CcOk   bool // continuity counter advanced by one on every packet of the PES
+	HdrOk  bool // start code, marker bits, '10' prefix
+	Data   []byte
+	Npkts  int
 }
 
 type esPid struct {
@@ -184,7 +184,9 @@ type TsDemux struct {
 	Out     []*EsFrame
 }
 
-func NewTsDemux() *TsDemux { return &TsDemux{pmtPid: -1, pids: map[int]*esPid{}, Streams: [][2]int{}, Bad: []string{}} }
+func NewTsDemux() *TsDemux {
+	return &TsDemux{pmtPid: -1, pids: map[int]*esPid{}, Streams: [][2]int{}, Bad: []string{}}
+}
 
 func (d *TsDemux) bad(s string) {
 	if len(d.Bad) < 8 {
